@@ -1927,7 +1927,14 @@ class SessionCache(object):
                 continue
 
             if not isinstance(reverse, Set): throw(NotImplementedError)
-            if reverse in modified_m2m: continue
+            if reverse in modified_m2m:
+                # the pairs were collected from the reverse side; this side's pending changes are saved by the same flush
+                for obj in objects:
+                    if obj._status_ == 'marked_to_delete': obj._vals_.pop(attr, None)
+                    else:
+                        setdata = obj._vals_[attr]
+                        setdata.added = setdata.removed = setdata.absent = None
+                continue
             added, removed = modified_m2m.setdefault(attr, (set(), set()))
             for obj in objects:
                 setdata = obj._vals_[attr]
